@@ -429,6 +429,8 @@ def finalize(R, prop):
 
     def root_not_removed(E, v, o):
         rem = o["removals"]
+        if hasattr(rem, "has"):  # removals given as a Python set (pyvc.ext_C06.SymSet): membership array
+            return z3.Not(rem.has(0))
         j = z3.Int(fresh_name("j"))
         return z3.ForAll([j], z3.Implies(z3.And(j >= 0, j < zint(rem.n)), z3.Select(rem.cols[0], j) != 0))
 
